@@ -11,11 +11,11 @@ choices) can be replayed verbatim on `NumpyConverter.run` / `SegyConverter.run` 
     repository under test) by a mirrored interpreter: all of them when there are few, otherwise a transition cover of the
     state graph plus a uniform sample.  Each is replayed on the real code and evaluated in the Coq model
     (Model/Pipeline.v `observe`, through tools/coqeval.py) and the enabled-thread set before every step, the sequence of
-    file writes and the final state are compared  -> R.violation('corr', ...).
+    file writes and the final state are compared  -> viol('corr', ...).
 (b) direct oracle (no model): under every explored schedule the conversion terminates (no deadlock, no exception), the
     bytes of the output file equal those of the strictly sequential execution (and of an ordinary run with real threads),
     and no daemon thread writes -- or is even able to move -- after run_conversion_loop has returned
-    -> R.violation('oracle', ...).
+    -> viol('oracle', ...).
 --search (an obligation broke): bad states are searched exhaustively in the state graph of the (changed) generated programs
 and the schedules that reach them are replayed first; then a larger random search.
 """
@@ -34,6 +34,19 @@ R = Result('one case = (route, number of queue items n in 1..3, capacities in {1
            'complete schedules of the generated programs when they are few, else a transition cover of the state graph + a uniform '
            'sample; every replay is judged by the direct oracle and compared step by step with the Coq model')
 rng = random.Random(a.seed + 1601)
+NVIOL = {'oracle': 0, 'corr': 0}
+
+
+def viol(kind, inp, detail):
+    NVIOL[kind] = NVIOL.get(kind, 0) + 1
+    R.count('violations/' + kind)
+    R.violation(kind, inp, detail)
+
+
+def enough():
+    """--search: stop spending once failing inputs have been found"""
+    return a.search and NVIOL['oracle'] >= 12
+
 QUICK = a.tier == 'quick'
 T_START = time.time()
 TIME_BUDGET = (150 if QUICK else 780)
@@ -437,6 +450,8 @@ def replay(scn, cap, schedule, tail='D', max_tail=400, chooser=None):
     schedule: string over M/C/W for the run_conversion_loop phase (None: use chooser(enabled names) for every step).
     tail: after the schedule is exhausted, 'D' = daemon threads first, 'M' = calling thread first.
     returns a dict of observations"""
+    if isinstance(schedule, str):
+        schedule = [UNLETTER[c] for c in schedule]
     S = Sched()
     S.caps_seen = []
     force = scn.force_cap(cap)
@@ -481,13 +496,13 @@ def replay(scn, cap, schedule, tail='D', max_tail=400, chooser=None):
                     obs['deadlock'] = True
                     break
                 if schedule is not None:
-                    t = UNLETTER[schedule[pos]]
+                    t = schedule[pos]
                     if t not in en:
                         obs['mismatch'] = (pos, t, en)
                         break
                 else:
                     t = chooser(en)
-                    obs.setdefault('chosen', []).append(LETTER.get(t, 'X'))
+                    obs.setdefault('chosen', []).append(t)
                 pos += 1
                 obs['steps'] += 1
                 S.go(t)
@@ -629,6 +644,11 @@ def real_threads_bytes(scn, cap):
     return open(out, 'rb').read()
 
 
+def sched_text(names):
+    """schedule as a string over M/C/W when only the three modelled threads occur, else the list of thread names"""
+    return ''.join(LETTER[t] for t in names) if all(t in LETTER for t in names) else list(names)
+
+
 def sequential_chooser(en):
     for t in ('TW', 'TC', 'TM'):
         if t in en:
@@ -676,7 +696,7 @@ def coq_observe(progs, jobs):
 # ===================================================================================== the check
 def judge(scn, cap, sch, tail, obs, ref, expect_model=None):
     """direct oracle on one replay; returns True if a violation was recorded"""
-    inp = {'route': scn.route, 'n': scn.n, 'shape': scn.tag, 'capacity': cap, 'schedule': sch if sch is not None else ''.join(obs.get('chosen', [])),
+    inp = {'route': scn.route, 'n': scn.n, 'shape': scn.tag, 'capacity': cap, 'schedule': sch if sch is not None else sched_text(obs.get('chosen', [])),
            'tail': tail, 'seed': a.seed}
     bad = []
     if obs['hang']:
@@ -694,7 +714,7 @@ def judge(scn, cap, sch, tail, obs, ref, expect_model=None):
         bad.append(f'output file differs from the sequential execution ({nb} bytes vs {len(ref["bytes"])}; '
                    f'write sequence {write_codes(obs["writes"], ref)})')
     if bad:
-        R.violation('oracle', inp, '; '.join(bad))
+        viol('oracle', inp, '; '.join(bad))
         return True
     return False
 
@@ -703,7 +723,7 @@ def reference(scn, cap):
     """the strictly sequential execution (each item travels to the file before the next is produced)"""
     obs = replay(scn, cap, None, tail='M', chooser=sequential_chooser)
     ws = [w for w in obs['writes']]
-    ref = {'bytes': obs['bytes'], 'schedule': ''.join(obs.get('chosen', [])), 'obs': obs}
+    ref = {'bytes': obs['bytes'], 'schedule': sched_text(obs.get('chosen', [])), 'obs': obs}
     wr = [b for th, k, b in ws if k == 'write' and th == 'TW']
     ref['header'] = wr[0] if wr else None
     ref['blocks'] = wr[1:]
@@ -715,24 +735,26 @@ def run_config(scn, cap, schedules, use_model, stats):
     inp0 = {'route': scn.route, 'n': scn.n, 'shape': scn.tag, 'capacity': cap, 'seed': a.seed}
     ro = ref['obs']
     if ro['exc'] or ro['deadlock'] or ro['hang'] or not ro['finished']:
-        R.violation('oracle', dict(inp0, schedule=ref['schedule']), f'the sequential schedule does not complete: exc={ro["exc"]} deadlock={ro["deadlock"]}')
+        viol('oracle', dict(inp0, schedule=ref['schedule']), f'the sequential schedule does not complete: exc={ro["exc"]} deadlock={ro["deadlock"]}')
         return
     plain = real_threads_bytes(scn, cap)
     if plain != ref['bytes']:
-        R.violation('oracle', dict(inp0, schedule=ref['schedule']), 'sequential execution under the scheduler and an ordinary threaded run produce different files')
+        viol('oracle', dict(inp0, schedule=ref['schedule']), 'sequential execution under the scheduler and an ordinary threaded run produce different files')
     if scn.route == 'numpy':
         ds = scn.independent_data_section()
         if ref['bytes'][8192:8192 + len(ds)] != ds or b''.join(ref['blocks']) != ds:
-            R.violation('oracle', dict(inp0, schedule=ref['schedule']), 'data section of the sequential execution is not the concatenation of the compressed plane sets')
+            viol('oracle', dict(inp0, schedule=ref['schedule']), 'data section of the sequential execution is not the concatenation of the compressed plane sets')
     if len(ref['blocks']) != scn.n:
         R.notes.append(f'{scn.route} {scn.tag}: expected {scn.n} queue items, the sequential run wrote {len(ref["blocks"])}')
     capq = cap
     if ro['caps'] and any(c != cap for c in ro['caps']):
-        R.violation('corr', inp0, f'queues were created with capacities {ro["caps"]}, expected {cap}')
+        viol('corr', inp0, f'queues were created with capacities {ro["caps"]}, expected {cap}')
     results = []
     for sch in schedules:
         if time.time() - T_START > TIME_BUDGET:
             stats['cut'] = True
+            break
+        if enough():
             break
         tail = 'D' if (len(results) % 2 == 0) else 'M'
         obs = replay(scn, cap, sch, tail=tail)
@@ -745,7 +767,7 @@ def run_config(scn, cap, schedules, use_model, stats):
         try:
             model = coq_observe(PROGS, [(scn.n, cap, cap, sch) for sch, _, _ in results])
         except CoqEvalError as ex:
-            R.violation('corr', inp0, 'the Coq model could not be evaluated: ' + str(ex)[-400:])
+            viol('corr', inp0, 'the Coq model could not be evaluated: ' + str(ex)[-400:])
             return
         for (sch, tail, obs), (masks, steps, done, mask_end, fcodes) in zip(results, model):
             inp = dict(inp0, schedule=sch, tail=tail)
@@ -763,7 +785,7 @@ def run_config(scn, cap, schedules, use_model, stats):
                 if bool(obs.get('main_done_at_end')) != bool(done):
                     diffs.append(f'returned: model {done}, real {obs.get("main_done_at_end")}')
             if diffs:
-                R.violation('corr', inp, '; '.join(diffs))
+                viol('corr', inp, '; '.join(diffs))
             stats['model_checked'] = stats.get('model_checked', 0) + 1
 
 
@@ -805,12 +827,14 @@ def random_search(scn, cap, tries, stats):
     """model-free: random schedules judged by the oracle only"""
     ref = reference(scn, cap)
     if ref['obs']['exc'] or ref['obs']['deadlock'] or not ref['obs']['finished']:
-        R.violation('oracle', {'route': scn.route, 'n': scn.n, 'shape': scn.tag, 'capacity': cap, 'schedule': ref['schedule'], 'seed': a.seed},
+        viol('oracle', {'route': scn.route, 'n': scn.n, 'shape': scn.tag, 'capacity': cap, 'schedule': ref['schedule'], 'seed': a.seed},
                     f'the sequential schedule does not complete: exc={ref["obs"]["exc"]} deadlock={ref["obs"]["deadlock"]}')
         return
     for i in range(tries):
         if time.time() - T_START > TIME_BUDGET:
             stats['cut'] = True
+            break
+        if enough():
             break
         r = random.Random(rng.randrange(2 ** 31))
         bias = r.choice([None, 'TM', 'TC', 'TW'])
@@ -822,7 +846,7 @@ def random_search(scn, cap, tries, stats):
         tail = 'D' if i % 2 == 0 else 'M'
         obs = replay(scn, cap, None, tail=tail, chooser=chooser)
         judge(scn, cap, None, tail, obs, ref)
-        R.case((scn.route, scn.n, cap, ''.join(obs.get('chosen', []))), nontrivial=True)
+        R.case((scn.route, scn.n, cap, str(sched_text(obs.get('chosen', [])))), nontrivial=True)
         R.count(f'random/{scn.route}/n{scn.n}/cap{cap}')
 
 
@@ -831,7 +855,6 @@ def main():
     if a.replay:
         rp = json.load(open(a.replay))
         inp = rp.get('input', {})
-        r2 = random.Random(inp.get('seed', a.seed) + 1601)
     routes = {'numpy': NumpyScn, 'segy': SegyScn, 'segy2d': Segy2dScn}
     scns = {}
     for n in (1, 2, 3):
@@ -848,7 +871,7 @@ def main():
         R.write(a.out)
         return
     use_model = PROGS is not None and not a.no_model
-    mult = (1 if QUICK else 5) * (3 if a.search else 1)
+    mult = (1 if QUICK else 12) * (3 if a.search else 1)
     # budgets: schedules per (route, n, capacity)
     plan = []
     for n in (1, 2, 3):
@@ -867,6 +890,8 @@ def main():
             if time.time() - T_START > TIME_BUDGET:
                 stats['cut'] = True
                 break
+            if enough() and NVIOL['oracle'] >= 12 and len(info_seen) >= 3:
+                break
             scheds, info = schedules_for(PROGS, n, cap, budget, a.search)
             if (n, cap) not in info_seen:
                 info_seen[(n, cap)] = info
@@ -878,6 +903,8 @@ def main():
         for rname, n, cap, budget in plan:
             if cap == 16 and n < 3:
                 continue
+            if enough():
+                break
             random_search(scns[(rname, n)], cap, max(10, budget // 2) * (2 if PROGS is None else 1), stats)
     R.notes.append(f'replays compared with the Coq model: {stats.get("model_checked", 0)}' + ('; time budget reached, remaining configurations cut short' if stats.get('cut') else ''))
     R.write(a.out)
